@@ -390,6 +390,21 @@ BENIGN: List[Tuple[str, str, List[Tuple[str, str]]]] = [
     ("helper-rename-params", H, [("running: Set[\"Future[Any]\"],", "pending: Set[\"Future[Any]\"],"), ("    if len(running) == 0:\n        return done, running, runnable_xns_ids\n    done_, running = wait(running, return_when=return_when)",
                                   "    if len(pending) == 0:\n        return done, pending, runnable_xns_ids\n    done_, pending = wait(pending, return_when=return_when)"),
                                  ("    return done, running, runnable_xns_ids\n\n\nasync def wait_for_finished_nodes_async", "    return done, pending, runnable_xns_ids\n\n\nasync def wait_for_finished_nodes_async")]),
+    ("async-kwargs-reordered", D, [("""        exec_nodes, results, profiles = await async_execute(
+            exec_nodes=self.exec_nodes,
+            results=results,
+            max_concurrency=self.max_concurrency,
+            graph=subgraph,
+        )""", """        exec_nodes, results, profiles = await async_execute(
+            graph=subgraph,
+            results=results,
+            exec_nodes=self.exec_nodes,
+            max_concurrency=self.max_concurrency,
+        )""")]),
+    ("execute-logs-priority", N, [('        logger.debug("Start executing {} with task {}", self.id, self.exec_function)',
+                                   '        logger.debug("Start executing {} (priority {}) with task {}", self.id, self.priority, self.exec_function)')]),
+    ("root-alias-truthiness", D, [("        if root_nodes is not None:\n            root_nodes = self.get_multiple_nodes_aliases(root_nodes)\n\n        graph = self.graph_ids.make_subgraph(",
+                                   "        if root_nodes:\n            root_nodes = self.get_multiple_nodes_aliases(root_nodes)\n\n        graph = self.graph_ids.make_subgraph(")]),
     ("conf-if-in", N, [('values["priority"] = conf.get("priority", self.priority)', 'values["priority"] = conf["priority"] if "priority" in conf else self.priority')]),
 ]
 
